@@ -43,7 +43,9 @@ func main() {
 			fmt.Fprintln(os.Stderr, err)
 			os.Exit(2)
 		}
-		for _, e := range rules.ErrFates(p) {
+		fates := rules.ErrFates(p)
+		fmt.Fprintf(os.Stderr, "%d error-returning calls\n", len(fates))
+		for _, e := range fates {
 			if e.Fate != "handled" {
 				fmt.Printf("%s\t%s\t%s\t%s\n", e.Fate, e.Fn.Name, e.Callee, p.Pos(e.Pos))
 			}
